@@ -322,14 +322,15 @@ def coverage_by_construction(chk, cr, ev, q):
     from ..symex import obj_init
     setm = [e for e in ev.events if e.kind == "call" and call_name(e.value.as_atom() or ()) == "setattr" and len(e.extra["args"]) == 3
             and string_value(e.extra["args"][1]) == "_symmetry_unique_molecules"]
-    chk.need(len(setm) == 1, f"{q}: memo store of the unique molecules not found")
-    res = setm[0].extra["args"][2]
+    stm = [e for e in ev.events if e.kind == "store" and e.target.key() == "self._symmetry_unique_molecules"]
+    chk.need(len(setm) + len(stm) == 1, f"{q}: memo store of the unique molecules not found")
+    res = setm[0].extra["args"][2] if setm else stm[0].value
     ra = res.as_atom()
     chk.need(ra and ra[0] == "obj", f"{q}: the list of unique molecules is not a local list")
     init = obj_init(res)
     empty = init.key() in ("(tuple ())", "list()")
     apps = [e for e in ev.events if e.kind == "call" and e.target is not None and e.target.key() == f"{res}.append"]
-    memo_guard = lambda c: "hasattr(self" in c.key()
+    memo_guard = lambda c: "hasattr(self" in c.key() or "getattr(self, '_symmetry_unique_molecules'" in c.key() or "(try " in c.key()
     ok_steps = bool(apps)
     why = []
     for e in apps:
@@ -355,7 +356,7 @@ def coverage_by_construction(chk, cr, ev, q):
             why.append(f"scan only runs under {[str(c)[:50] for c in outer]}")
         ok_steps = ok_steps and bool(marks) and test_new and over_all and not outer
     chk.ob("R04.7", CR, q, "coverage by construction: the result starts empty; molecules are added only in an unconditional scan over all unit-cell "
-           "molecules, each together with marking its parent sites and only if those were not all marked", empty and ok_steps, node=setm[0].node,
+           "molecules, each together with marking its parent sites and only if those were not all marked", empty and ok_steps, node=(setm or stm)[0].node,
            fingerprint="coverage", expected="molecules = []; for mol in sorted(uc_molecules): if all marked: continue; mark; append",
            found=(f"initial value {str(init)[:80]}; " if not empty else "") + "; ".join(sorted(set(why))))
 
